@@ -11,13 +11,13 @@ CHECKS = {
     "C01": ("exploration", "offline history checker over stamped start/end events under bytecode-granular yield injection (sys.monitoring) + deterministic single-preemption enumeration (worker held at every instruction of the engine's bookkeeping, up to its next queue.get) and two-preemption (k1, k2) pair enumeration (sampled in the quick tier, every pair of the 2-predecessor shapes in the thorough tier) + registry runs checked on the run's effective dependencies",
             "Held on the sampled executions: every call start was preceded by the successful end of all its IR ancestors, under seeded random plans, worker counts, both schedulers and preemption injected between engine bytecodes. Sampling, not exhaustion, is the right level for a schedule-quantified property of a GIL interpreter without a controllable scheduler.",
             "harness lock and sequence counter; IR generator's dependency relation; CPython sys.monitoring INSTRUCTION events", "3/C01"),
-    "C02": ("exploration", "differential against a reference interpreter + per-call argument identity/order monitors (several W/scheduler/retry/perturbation configurations, single- and two-preemption enumeration, callables with explicit signatures, plans whose direct evaluation raises)",
+    "C02": ("exploration", "differential against a reference interpreter + per-call argument identity/order monitors (several W/scheduler/retry/perturbation configurations, single- and two-preemption enumeration, callables with explicit signatures, plans whose direct evaluation raises, unpack with surplus / missing items and generator-valued calls under every retry setting)",
             "Held on the sampled expression graphs: run's value, every call's positional/keyword arguments (order, names, identity of node-free arguments, exact container types) agree with a direct recursive evaluation of the same IR under several (W, scheduler, perturbation) configurations.",
             "reference interpreter (vmon/ir.py Evaluator) mirrors the documented gather rule; deterministic call functions", "3/C02"),
     "C03": ("exploration", "from-scratch evaluator oracle after every step of generated store histories (in-memory logical-clock stores incl. DST-zone instants and skewed clocks, faulted and really interrupted runs; file-backed histories incl. symlinked sources)",
             "Held on the sampled histories (runs, faulted runs, source updates, deletions, fresh_time advances in any order): every successful run's output and every non-source store equal the from-scratch values.",
             "logical-clock in-memory stores; only documented registry patterns generated", "3/C03"),
-    "C04": ("exploration", "execution counters in the plan's own functions vs IR ancestor closure, under yield injection, deterministic single-preemption enumeration and two-preemption pair enumeration",
+    "C04": ("exploration", "execution counters in the plan's own functions vs IR ancestor closure, under yield injection, deterministic single-preemption enumeration and two-preemption pair enumeration; hand-built structures (a container object reused and changed in place, sets of tuples holding nodes)",
             "Held on the sampled runs: no call exceeded its allowed attempts; successful runs executed exactly the ancestor closure of the output, once each.",
             "counters under the harness lock; needed set from the IR", "3/C04"),
     "C05": ("exploration", "declarative out-of-date oracle + need fixpoint predicting exact event multisets; silent re-run monitor; file-backed histories with execution counters (byte-identical rebuilds, symlinked sources)",
@@ -26,7 +26,7 @@ CHECKS = {
     "C06": ("exploration", "history checker + identity monitors on injected exception objects under yield injection; registry runs with failing writers checked on effective dependencies; unusual failing calls (thousands of dependents below, unprintable function / scope objects, exceptions that cannot be re-created from their args)",
             "Held on the sampled failing runs: nothing downstream of a failed call started; run raised CallError whose call failed in this run and whose __cause__ is the recorded exception object; with one worker it was the first failure.",
             "exceptions remembered by identity under the harness lock", "3/C06"),
-    "C07": ("exploration", "logical deadlock detector on kernel thread states (/proc futex parking + ctx-switch counters), bounded-progress livelock criterion for display threads, thread census, cycle placements; fault injection into every user callback (stores, observers, retry, transform_physical, Thread.start); plans built by code with unusual file names judged by a spinning-thread (bounded progress) criterion",
+    "C07": ("exploration", "logical deadlock detector on kernel thread states (/proc futex parking + ctx-switch counters), bounded-progress livelock criterion for display threads, thread census, cycle placements; fault injection into every user callback (stores, observers, retry, transform_physical, Thread.start); plans built by code with unusual file names judged by a spinning-thread (bounded progress) criterion; retry over exception classes; many nested runs at once",
             "Held on the sampled runs: no logically quiescent state with run un-returned was ever observed, nothing was left running or alive after return, and every cycle among examined nodes was reported before any call/store event.",
             "Linux /proc/self/task/<tid>/{syscall,status}; untimed futex wait = parked; progress=None in these runs", "3/C07"),
     "C08": ("fault_enumeration", "event-indexed fault injection at EVERY boundary event of each generated case + post-cut oracle + repair-run oracles (also with retry absorbing an earlier transient fault, and with the cut placed in the repeated hour of a DST zone)",
@@ -38,7 +38,7 @@ CHECKS = {
     "C10": ("exploration", "in-flight counters + assertions at logically quiescent states driven by a wave scheduler; count/attempt monitors (incl. retry-exhausting store operations); error limit checked with the limit-crossing worker held at every instruction of its failure bookkeeping; at-most-once execution under single-preemption enumeration of join shapes",
             "Held on the sampled runs: never more than max_workers operations (nor stale_check_max_workers mtime queries) in flight; at every quiescent state exactly min(W, ready) calls were running; max_errors and retry counts/identities as stated.",
             "quiescence from kernel thread state; readiness from the IR", "3/C10"),
-    "C11": ("fault_enumeration", "file-operation fault shim (every operation index x errno / persistent same-kind failure / non-Exception abort / os._exit in a forked child, with and without a leftover staging file, RLIMIT_FSIZE short writes; unprivileged writers killed over read-only targets) + strace syscall fault injection; filesystem snapshot oracle",
+    "C11": ("fault_enumeration", "file-operation fault shim (every operation index x errno / persistent same-kind failure / non-Exception abort / os._exit in a forked child, with and without a leftover staging file, RLIMIT_FSIZE short writes; unprivileged writers killed over read-only targets or writing into directories that are not theirs) + strace syscall fault injection; filesystem snapshot oracle",
             "For each generated write every file-operation index was faulted (exception and process death): target holds complete old or complete new bytes, mtime unchanged unless new, no staging file after an exception, leftovers do not disturb later operations.",
             "open/os substitution in uberjob.stores._file_store inside the harness process; strace tier cross-checks on real syscalls", "3/C11"),
     "C12": ("exploration", "round-trip monitors over generated values per store domain and mount kind; a second store object looking between the file operations of a rewrite",
@@ -53,7 +53,7 @@ CHECKS = {
     "C16": ("exploration", "weak-reference liveness monitor after gc.collect() at call starts, inside completed notifications and at logically quiescent states; release of a result with several consumers finishing together under single-preemption enumeration (worker held at every instruction of run_physical's and the graph runner's bookkeeping)",
             "Held on the sampled successful runs: every result whose consumers had all been fully processed (and that is not part of the output) was dead at the next checkpoint; everything was dead after run returned.",
             "harness keeps only ids and weakrefs; consumers followed through implicit gather nodes", "3/C16"),
-    "C17": ("fault_enumeration", "real SIGINT (pthread_kill) at every call index + gate/quiescence protocol deciding 'interrupt handled' logically; strict thread census at the moment run raises; deadlock detector and bounded-progress livelock criterion for displays; C08/C03/C05 oracles on the post-interrupt state",
+    "C17": ("fault_enumeration", "real SIGINT (pthread_kill) at every call index (random and wide plans) + gate/quiescence protocol deciding 'interrupt handled' logically (an interrupt is re-sent only if sys.monitoring shows it never reached uberjob code); strict thread census at the moment run raises; deadlock detector and bounded-progress livelock criterion for displays; C08/C03/C05 oracles on the post-interrupt state",
             "For each generated case every call index (start / steady-state / end position; quick tier: first, last and a seeded sample) received a real SIGINT: run raised KeyboardInterrupt, nothing started after the interrupt was proven handled, in-flight calls completed, all threads exited, observer exited once, stores repairable.",
             "CPython default SIGINT handler; Linux /proc thread states", "3/C17"),
     "C18": ("exploration", "out-of-date oracle on epoch seconds vs the run's rebuilt set, per process time zone and datetime representation",
